@@ -15,7 +15,7 @@ def sh(cmd, cwd=None, env=None, timeout=3000):
 def main():
     prop, lab = sys.argv[1], sys.argv[2]
     checks = sys.argv[3:] or [prop]
-    src = '/tmp/seed-%s/seeded' % prop
+    src = os.environ.get('SEED_SRC', '/tmp/seed-%s/seeded') % prop
     diff = os.path.join(src, lab + '.diff'); demo = os.path.join(src, 'demo_%s.py' % lab)
     wt = '/tmp/verify-%s-%s' % (prop, lab)
     out = '/verif/seeded/%s-%s' % (prop, lab)
